@@ -14,7 +14,7 @@ pub const RULE: &str = "cases = accepted connected graphs (both sub-classes: all
 
 pub fn gen_case(t: &mut Tape, tier: Tier) -> Option<Phys> {
     let mo = if t.bool() { 1.0 / 64.0 } else { 0.15 };
-    let g = gen::gen_phys_graph(t, tier.pick(8, 9), 5, mo, 6)?;
+    let g = gen::gen_phys_graph(t, tier.pick(8, 9), 8, mo, 6)?;
     if g.nedges() < 2 {
         return None;
     }
